@@ -20,7 +20,7 @@
    framing/damage properties C06/C09, which feed bytes, not trees).
 
    Raw varints are Z in [0, 2^64).  Fixed32/fixed64 fields only occur as unknown fields (no OSM PBF
-   message defines one); the decoder skips them (skipField, fix e98d69a: protoscan v0.2.1 mis-skips a
+   message defines one); the decoder skips them (skipField, fix 29230da: protoscan v0.2.1 mis-skips a
    fixed-width field that ends a message), so a typed view of one is a wire-type error. *)
 From Coq Require Import ZArith List Bool.
 From Verif Require Import Base.Int64.
@@ -123,7 +123,7 @@ Fixpoint set_nth {A} (l : list A) (n : nat) (f : A -> A) : option (list A) :=
   | a :: r, S k => match set_nth r k f with Some r' => Some (a :: r') | None => None end
   end.
 
-(* if index >= len(s) { return errColumns }; s[index] = ...   (fix a348d0a) *)
+(* if index >= len(s) { return errColumns }; s[index] = ...   (fix ed32e9e) *)
 Definition upd {A} (l : list A) (i : nat) (f : A -> A) : result (list A) :=
   match set_nth l i f with Some l' => Ok l' | None => Err E_COLUMNS end.
 (* after the loop: if index != len(s) { return errColumns } *)
